@@ -330,6 +330,33 @@ pub fn c18_blackbox(run: &mut Run) {
         let p = Pos::parse_fen(fen).unwrap();
         roots.push(History { start: p.clone(), moves: vec![], end: p });
     }
+    // roots with a single legal reply (forced-reply shapes, sparse endings in check)
+    {
+        let mut rng = Rng::stream(seed, 0xC18_F0);
+        let mut n = 0;
+        for _ in 0..200_000 {
+            if n >= 20 {
+                break;
+            }
+            let cand = if rng.chance(1, 2) {
+                super::c10::forced_reply_cycle(&mut rng).map(|(c, cyc)| {
+                    let mut p = c;
+                    for m in &cyc[..3] {
+                        p = apply(&p, *m);
+                    }
+                    p
+                })
+            } else {
+                super::c11::material_position(&mut rng, &[Kind::Queen], &[], Color::Black)
+            };
+            if let Some(p) = cand {
+                if legal_moves(&p).len() == 1 {
+                    roots.push(History { start: p.clone(), moves: vec![], end: p });
+                    n += 1;
+                }
+            }
+        }
+    }
     let sessions = tier.pick(16usize, 160);
     let per_session = tier.pick(16usize, 32);
     let res = run_parallel(16, sessions, |sid| {
